@@ -53,6 +53,9 @@ type Step struct {
 	Delivered  int
 	FailedRead bool
 	CtxAlive   bool // the caller's context had not ended when the last byte was handed over
+	// Spare is the time that was left until the deadline of the context the stream was opened
+	// with when the last byte was handed over (very large without a deadline)
+	Spare time.Duration
 }
 
 // Consumed reports whether the client took every scripted byte of the step without a read error.
@@ -73,9 +76,13 @@ type Item struct {
 
 // HonestServed reports whether some honest step of the item was consumed entirely while the
 // caller's context was alive.
-func (it *Item) HonestServed() bool {
+func (it *Item) HonestServed() bool { return it.HonestServedWithSpare(0) }
+
+// HonestServedWithSpare is HonestServed with the additional demand that at least spare was left
+// until the deadline of the attempt when the last byte was handed over.
+func (it *Item) HonestServedWithSpare(spare time.Duration) bool {
 	for _, s := range it.Steps {
-		if s.Honest && s.End == EndEOF && s.Consumed() && s.CtxAlive {
+		if s.Honest && s.End == EndEOF && s.Consumed() && s.CtxAlive && s.Spare >= spare {
 			return true
 		}
 	}
@@ -444,7 +451,8 @@ func (n *ShrexNet) NewStream(ctx context.Context, p peer.ID, pids ...protocol.ID
 			return nil, errDial
 		}
 	}
-	return &fakeStream{net: n, peer: p, proto: name, reset: make(chan struct{})}, nil
+	fs := &fakeStream{net: n, peer: p, proto: name, reset: make(chan struct{}), ctx: ctx}
+	return fs, nil
 }
 
 type fakeNetwork struct {
@@ -467,6 +475,7 @@ type fakeStream struct {
 	net   *ShrexNet
 	peer  peer.ID
 	proto string
+	ctx   context.Context // the context the stream was opened with
 
 	mu       sync.Mutex
 	wbuf     bytes.Buffer
@@ -499,14 +508,14 @@ func (s *fakeStream) doReset() {
 	s.mu.Unlock()
 }
 
-func (s *fakeStream) Reset() error                                { s.doReset(); return nil }
+func (s *fakeStream) Reset() error                                 { s.doReset(); return nil }
 func (s *fakeStream) ResetWithError(network.StreamErrorCode) error { s.doReset(); return nil }
-func (s *fakeStream) Close() error                                { s.doReset(); return nil }
-func (s *fakeStream) SetDeadline(time.Time) error                 { return nil }
-func (s *fakeStream) SetReadDeadline(time.Time) error             { return nil }
-func (s *fakeStream) SetWriteDeadline(time.Time) error            { return nil }
-func (s *fakeStream) ID() string                                  { return "c06-stream" }
-func (s *fakeStream) Protocol() protocol.ID                       { return protocol.ID(s.proto) }
+func (s *fakeStream) Close() error                                 { s.doReset(); return nil }
+func (s *fakeStream) SetDeadline(time.Time) error                  { return nil }
+func (s *fakeStream) SetReadDeadline(time.Time) error              { return nil }
+func (s *fakeStream) SetWriteDeadline(time.Time) error             { return nil }
+func (s *fakeStream) ID() string                                   { return "c06-stream" }
+func (s *fakeStream) Protocol() protocol.ID                        { return protocol.ID(s.proto) }
 
 // resolve picks the step that answers the request written so far (called with s.mu held).
 func (s *fakeStream) resolve() {
@@ -570,10 +579,15 @@ func (s *fakeStream) Read(p []byte) (int, error) {
 		}
 		copy(p, st.Data[s.off:s.off+n])
 		s.off += n
-		alive := s.net.Ctl == nil || !s.net.Ctl.Ended()
+		alive := s.ctx.Err() == nil && (s.net.Ctl == nil || !s.net.Ctl.Ended())
+		spare := time.Duration(1 << 62)
+		if dl, ok := s.ctx.Deadline(); ok {
+			spare = time.Until(dl)
+		}
 		s.net.mu.Lock()
 		st.Delivered = s.off
 		st.CtxAlive = alive
+		st.Spare = spare
 		s.net.mu.Unlock()
 		s.mu.Unlock()
 		return n, nil
